@@ -149,6 +149,10 @@ mod drop;
 mod hash;
 mod link;
 mod rc;
+#[cfg(cactusref_verif)]
+#[doc(hidden)]
+#[path = "verif.rs"]
+pub mod __verif;
 
 // Doc modules
 #[cfg(any(doctest, docsrs))]
